@@ -242,6 +242,57 @@ def r7_synchronous(ck, cx):
     ck.floor('R7', n, 14, 'execute/send methods')
 
 
+def r8_datagram_destination(ck, cx):
+    ck.rule('R8', 'datagram front-ends answer the sender of the request: the destination of the transport write is carried with the request (parameter chain / per-request handler attribute), never an instance attribute that a later datagram overwrites')
+    n = 0
+    for fe in FRONTENDS:
+        if fe[5] != 'datagram':
+            continue
+        cls = cx.idx.cls(fe[1])
+        n += 1
+        ext = cx.idx.extern_bases(cls)
+        per_request_handler = any('BaseRequestHandler' in b for b in ext)      # socketserver creates one handler object per datagram
+        # methods that run once per received datagram and could store the peer on the shared object
+        recv_cbs = [m for m in ('datagram_received', 'datagramReceived') if cx.idx.find_method(cls, m) is not None]
+        stored = set()
+        for m in recv_cbs:
+            fn = cx.idx.find_method(cls, m)
+            for nd in ast.walk(fn.node):
+                if isinstance(nd, ast.Assign):
+                    for t in nd.targets:
+                        if isinstance(t, ast.Attribute) and U(t.value) == 'self':
+                            stored.add(t.attr)
+        # the write
+        for name in (fe[3], '_send_'):
+            fn = cx.idx.find_method(cls, name)
+            if fn is None:
+                continue
+            for c in ast.walk(fn.node):
+                if isinstance(c, ast.Call) and is_transport_write(c):
+                    dest = [a for a in c.args[1:]] + [k.value for k in c.keywords]
+                    used = {x.attr for d in dest for x in ast.walk(d) if isinstance(x, ast.Attribute) and U(x.value) == 'self'}
+                    params = set(fn.params)
+                    from_params = all(any(isinstance(x, ast.Name) and x.id in params for x in ast.walk(d)) or
+                                      (per_request_handler and U(d) == 'self.client_address') for d in dest) and bool(dest)
+                    shared = used & stored
+                    ck.ob('R8', fn.qn, 'write destination comes from the request (parameter) not from shared per-object state',
+                          from_params and not shared and not (used - ({'client_address'} if per_request_handler else set())),
+                          detail='datagram-destination %s' % sorted(used or {U(d) for d in dest}), loc=cx.floc(fn, c),
+                          message='%s sends the response to %s, which %s: with datagrams from two peers in flight a response goes to the wrong peer' % (
+                              fe[0], [U(d) for d in dest], 'is overwritten by every received datagram' if shared else 'is not tied to the request'))
+        # the chain: receive callback hands (data, addr) on together; execute/send forward their extra arguments
+        for m in recv_cbs:
+            fn = cx.idx.find_method(cls, m)
+            addr = fn.params[2] if len(fn.params) > 2 else None
+            uses = [nd for nd in ast.walk(fn.node) if isinstance(nd, ast.Name) and nd.id == addr and isinstance(nd.ctx, ast.Load)]
+            together = any(isinstance(getattr(u, '_parent', None), ast.Tuple) or isinstance(getattr(u, '_parent', None), (ast.Call, ast.Lambda)) or
+                           isinstance(getattr(getattr(u, '_parent', None), '_parent', None), ast.Lambda) for u in uses)
+            ck.ob('R8', fn.qn, 'the sender address is passed on together with the datagram', bool(uses) and together and not any(
+                isinstance(getattr(u, '_parent', None), ast.Assign) and isinstance(u._parent.targets[0], ast.Attribute) for u in uses),
+                detail='address-not-carried-with-datagram', loc=cx.floc(fn))
+    ck.floor('R8', n, 3, 'datagram front-ends')
+
+
 def run(ck, tier):
     cx = Ctx()
     ck.guard(r1_r2, ck, cx)
@@ -250,6 +301,7 @@ def run(ck, tier):
     ck.guard(r5_per_connection_framer, ck, cx)
     ck.guard(r6_signature, ck, cx)
     ck.guard(r7_synchronous, ck, cx)
+    ck.guard(r8_datagram_destination, ck, cx)
     ck.assume('request.execute may raise any Exception; context lookup may raise NoSuchSlaveException; other statements of execute() are treated as non-raising')
     ck.assume('byte-exact output streams over generated request histories are not decided')
     return cx.idx
